@@ -152,6 +152,17 @@ theorem bad_version_or_no_key_400 (hdrs : Headers)
   unfold upgraded respond
   simp [he, HsErr.status]
 
+/-- **Repair of K20a.**  A request older than HTTP/1.1 is refused with 400
+whatever its headers say (the upgrade mechanism does not exist there: before
+the repair a complete handshake over HTTP/1.0 got a 101 that hyper could never
+honour), and for HTTP/1.1 the version check changes nothing, so every other
+theorem of this file is about the HTTP/1.1 case. -/
+theorem http10_is_400 (hdrs : Headers) :
+    handshakeReq false hdrs = .error .oldHttp ∧ (respondReq false hdrs).status = 400 ∧
+      (respondReq false hdrs).headers = [] ∧
+      handshakeReq true hdrs = handshake hdrs ∧ respondReq true hdrs = respond hdrs := by
+  refine ⟨rfl, rfl, rfl, rfl, rfl⟩
+
 /-! ### The accept value -/
 
 /-- **C20, digest clause.**  A successful handshake carries
@@ -295,6 +306,11 @@ example :
     let hdrs : Headers :=
       [(hConnection, tUpgrade), (hUpgrade, [104, 50, 99]), (hVersion, v13), (hKey, [65, 66])]
     legalLists hdrs = true ∧ rfcHandshake hdrs = false ∧ (respond hdrs).status = 400 := by
+  decide +kernel
+
+/-- Non-vacuity of `http10_is_400`: the same complete header set is 101 over
+HTTP/1.1 and 400 over HTTP/1.0. -/
+example : (respondReq true d5Tab).status = 101 ∧ (respondReq false d5Tab).status = 400 := by
   decide +kernel
 
 /-- `missing_any_400` applied to a complete handshake: it was 101 before the removal. -/
